@@ -306,3 +306,7 @@ Proof.
     + apply mem_In, in_map, kept_In. auto.
     + now apply mem_In.
 Qed.
+
+(* the view used by the correspondence check is the model's kept / dups *)
+Lemma model_view_spec l : model_view l = (map bid (kept l), dups l).
+Proof. reflexivity. Qed.
